@@ -2096,6 +2096,9 @@ Error Assembler::_emit(InstId inst_id, const Operand_& o0, const Operand_& o1, c
         if (!check_signature(o0, o1, o2))
           goto InvalidInstruction;
 
+        if (!check_gp_id(o0, o1, o2, kZR))
+          goto InvalidPhysId;
+
         opcode.reset(op_data.register_op);
         opcode.add_imm(x, 31);
         opcode.add_reg(o2, 16);
